@@ -220,6 +220,10 @@ func runPanic(c *Ctx) {
 			if f.Parent() == nil && f.Object() != nil && f.Object().Exported() && (f.Name() == "MustFunc" || f.Name() == "KahnSort") {
 				desc = "by-contract"
 			}
+			// a private step of KahnSort (the leftover-edge scan moved into a helper) panics under the same contract
+			if ksf := p.Method(p.Graph, "Graph", "KahnSort"); ksf != nil && f != ksf && f.Parent() == nil && p.PrivateHelper(f) && p.InRegion(f, ksf) {
+				desc = "by-contract"
+			}
 			for _, l := range lits {
 				if l.Kind == "ok" && !l.Pol {
 					if ta, ok := l.Of.(*ssa.TypeAssert); ok && core.TypeStr(ta.AssertedType) == p.ValuerIfaceName() {
@@ -884,6 +888,10 @@ func (c *Ctx) panicRole(name string) string {
 	}
 	if r := roleOf(f); r != "" {
 		return r
+	}
+	// a private step of the exported topological sort panics under that function's contract
+	if ksf := p.Method(p.Graph, "Graph", "KahnSort"); ksf != nil && f != ksf && f.Parent() == nil && p.PrivateHelper(f) && p.InRegion(f, ksf) {
+		return core.FuncName(ksf)
 	}
 	// helper: every way it is reached (through private helpers) starts in a role function
 	roles := map[string]bool{}
